@@ -13,6 +13,11 @@ def mutants(src):
             b = os.path.basename(d)[:-5]
             out.append((b, b.split('_')[0], d))
         return out
+    if src == 'refactors':
+        for d in sorted(glob.glob('/verif/refactors/*/patch.diff')):
+            b = d.split('/')[-2]
+            out.append((b, b.split('_')[0], d))
+        return out
     if src == 'regressions':
         for d in sorted(glob.glob('/verif/regressions/*/patch.diff')):
             mid = d.split('/')[-2]
@@ -25,7 +30,7 @@ def mutants(src):
             prop = d.split('/')[-3]; k = re.search(r'm(\d+)\.diff', d).group(1)
             out.append((prop + '-m' + k, prop, d))
     else:
-        for d in sorted(glob.glob('/verif/seeded/*/patch.diff')):
+        for d in sorted(glob.glob('/verif/seeded/*/patch.diff') + glob.glob('/verif/seeded-unexecuted/*/patch.diff')):
             mid = d.split('/')[-2]
             out.append((mid, mid.split('-')[0], d))
     return out
